@@ -83,6 +83,32 @@ def replay_product(case):
                  'at string %d' % (n, len(meas), len(got_rows), len(want_rows), k))]
     if len(set(got_rows)) != len(got_rows) or np.max(np.abs(np.asarray(probs) - np.array(want_freq))) > 1e-12:
         return [('sampling:product:frequencies', 'frequencies differ from the prediction (n=%d)' % n)]
+    # second use of the same state object: an X gate is applied in place to the first measured qubit (its two amplitudes are
+    # exchanged: still a normalised right-orthonormal product state) and the same sites are measured again with the same
+    # variates.  Only that qubit's bit changes: bit = [u > |a1|^2 / (|a0|^2 + |a1|^2)] (exact rational comparison).
+    from fractions import Fraction
+    k0 = meas[0]
+    a0, a1 = case['amps'][k0]
+    p0new = Fraction(int(a1) ** 2, int(a0) ** 2 + int(a1) ** 2)
+    us = [Fraction(int(r[0]), 1024) for r in case['u']]
+    if any(u_ == p0new for u_ in us):
+        return []
+    rows2 = [tuple([1 if us[j] > p0new else 0] + list(r[1:])) for j, r in enumerate(rows)]
+    want2 = sorted(set(rows2))
+    freq2 = [rows2.count(r) / len(rows2) for r in want2]
+    t.cores[k0] = t.cores[k0][:, ::-1, :, :].copy()
+    try:
+        with mock.patch('numpy.random.rand', side_effect=fake_rand):
+            s2, p2 = qc.sampling(t, meas, len(rows))
+    except _Unbound:
+        return []
+    except Exception as e:
+        return [('sampling:product:second-use:exception:%s' % type(e).__name__, repr(e))]
+    got2 = [tuple(int(x) for x in r) for r in np.asarray(s2).reshape(len(s2), -1)]
+    if got2 != want2 or np.max(np.abs(np.asarray(p2) - np.array(freq2))) > 1e-12:
+        return [('sampling:product:second-use', 'X gate applied in place to qubit %d of the state object between two measurements of the same '
+                 'sites: the second result is not the prediction for the new state (n=%d, %d strings returned, %d predicted)' % (
+                     k0, n, len(got2), len(want2)))]
     return []
 
 
